@@ -1044,6 +1044,27 @@ func (c *EvalCtx) call(e *ECall) Value {
 			mask = uint8(k)
 		}
 		return Bool(c.e.taintBits(c.st, c.eval(arg(0)), 0)&mask != 0)
+	case "oneOf":
+		// oneOf(b, "=*"): the byte b is one of the bytes of the literal string
+		lit, ok := c.eval(arg(1)).(StrV)
+		var chars string
+		if ok && lit.Lit != nil {
+			chars = *lit.Lit
+		} else if ok {
+			if cs, ok2 := concreteString(lit); ok2 {
+				chars = cs
+			} else {
+				return c.fail("oneOf: second argument must be a string literal")
+			}
+		} else {
+			return c.fail("oneOf: second argument must be a string literal")
+		}
+		b := c.term(arg(0))
+		var alts []*Term
+		for i := 0; i < len(chars); i++ {
+			alts = append(alts, Eq(b, Num(int64(chars[i]))))
+		}
+		return Or(alts...)
 	case "ufb", "ufi":
 		// uninterpreted function of a byte sequence: names "the" result of a deterministic,
 		// read-only computation on those bytes (used in axiom clauses)
